@@ -496,7 +496,10 @@ def run_rotate(ck):
     ck.coverage["rule"] += ("histories of 1..6 Rotate runs on one database: random configurations (0-3 tiers, durations 1 s .. 292 years incl. "
                             "sub-second, negative and beyond-int32 values, disks, storage policy present/absent, clustered or not), configuration "
                             "changes/reverts between runs, faults at call indexes (with and without effect); fault-at-every-index families; legacy "
-                            "settings layouts; non-trivial = >= 2 runs and >= 1 ALTER; distinct by content. ")
+                            "settings layouts; runs through RotateAll/rotateDB (good, bad and blank ttl_policy timeouts, several databases) and "
+                            "through portCHEnv (SAMPLES_DAYS / port / key texts); 2-3 concurrent Rotate goroutines under random schedules (same or "
+                            "different configurations, crashed instances, completing runs); server clock 1 us .. 1.5 s per statement; "
+                            "non-trivial = (>= 2 runs or concurrent instances) and >= 1 ALTER; distinct by content. ")
     ck.extra["input_distribution"] = {"classes": hist, "runs": nruns, "runs_ended_by_fault": nfault,
                                       "logged_calls": sum(case_size(c)[1] for c in cases),
                                       "tier_durations": dur, "glue": glue, "concurrent": conc,
@@ -508,10 +511,11 @@ def run_rotate(ck):
 
 def run(ck):
     ck.trusted += [
-        "C19: ClickHouse itself is modelled: ALTER ... MODIFY TTL / MODIFY SETTING storage_policy set the table's value, the settings query returns the most recently inserted value of a fingerprint (two inserts of one run must not share one NOW() second; otherwise the next run re-applies the group once more); reads through settings_dist see the rows written to settings",
-        "C19: a fault is an error returned by one call, with or without the statement having taken effect; a crash is a fault after which nothing else runs",
-        "C19: out-of-range float64->int32 conversion is implementation-defined in Go: the model takes the converted value as input (the theorems hold for every value); the harness evaluates the same expression on this platform",
-        "C19: disk names containing '%' (MoveTo is spliced into a Sprintf format) are outside the generator",
+        "C19: ClickHouse itself is modelled: ALTER ... MODIFY TTL / MODIFY SETTING storage_policy set the table's value; the settings table is rows stamped with inserted_at (NOW() = whole seconds, now64(9) = nanoseconds) and the settings query answers the value of a row with the greatest stamp (the fake: the first inserted among equals; theorem settings_read_is_last_write: with strictly increasing stamps the answer is the last insert); the server clock advances between two statements of one connection; reads through settings_dist see the rows written to settings",
+        "C19: a fault is an error returned by one call, with or without the statement having taken effect; a crash is a fault after which nothing else runs; concurrent instances crash by never issuing another statement",
+        "C19: time.ParseDuration is an oracle of the model (any function); the harness reports what the real one returned for each timeout text",
+        "C19: rotateDB, RotateAll, boolEnv and portCHEnv are compiled into the harness as verbatim copies cut out of the repository under test (top-level func ... closing brace at column 0), with maintenance.ConnectV2 replaced by a function handing out the fake connection",
+        "C19: disk names containing '%' or a quote (MoveTo is spliced into a Sprintf format and into SQL) are outside the generator",
     ]
     ck.coq_props()
     ok, out = ck.coq_make(["model/RotateObs.vo"])
